@@ -254,6 +254,13 @@ class _ParallelMapperIter(Iterator[T]):
                     self._stop.set()
                     self._mp_stop.set()
                     raise StopIteration()
+                dead = [w for w in self._workers if not w.is_alive()]
+                if dead and not (self._stop.is_set() or self._mp_stop.is_set()):
+                    # A worker never exits before stop is requested: it died, and the item it
+                    # held (with its permit) is lost, so waiting any longer would block forever
+                    self._stop.set()
+                    self._mp_stop.set()
+                    raise RuntimeError(f"ParallelMapper worker(s) exited unexpectedly: {dead}")
                 continue
 
             if isinstance(item, StopIteration):
